@@ -288,6 +288,48 @@ Fixpoint lab_spec (g0 : gmap) (zone_srv : list (zone * N)) (trees : list ltree) 
         end
   end.
 
+(* ------------------------------------------------------------------ race *)
+
+(* one step of an interleaved history of several resolutions (resolution id = request tree id),
+   with the bracket of the clock readings of that step *)
+Record rstep := mk_rstep { rp_id : N; rp_act : lact; rp_t0 : Z; rp_t1 : Z }.
+
+Definition inst_id (i : N) (t : Z) (a : lact) : act :=
+  match a with
+  | LSeed q => ASeed i i q false t
+  | LRefer z srv coh ns ds => ARefer i (mk_ref z srv coh ns ds true t false t [] false true true t)
+  | LStore key ttl => AStore i key ttl t
+  end.
+
+Fixpoint push_asked (i s : N) (l : list (N * list N)) : list (N * list N) :=
+  match l with
+  | [] => [(i, [s])]
+  | (j, xs) :: r => if (i =? j)%N then (j, xs ++ [s]) :: r else (j, xs) :: push_asked i s r
+  end.
+
+Fixpoint race_walk (hi : bool) (st : state) (steps : list rstep) (asked : list (N * list N)) : state * list (N * list N) :=
+  match steps with
+  | [] => (st, asked)
+  | p :: r =>
+      let i := rp_id p in
+      let st' := step code_fx (inst_id i (if hi then rp_t1 p else rp_t0 p) (rp_act p)) st in
+      let asked' :=
+        match rp_act p, st_rs st' i with
+        | LStore _ _, _ => asked
+        | LSeed _, Some rs => push_asked i (rs_srv rs) asked
+        | LRefer _ _ _ _ _, Some rs =>
+            match st_rs st i with
+            | Some rs0 => if zone_eqb (rs_zone rs0) (rs_zone rs) then asked else push_asked i (rs_srv rs) asked
+            | None => asked
+            end
+        | _, None => asked
+        end in
+      race_walk hi st' r asked'
+  end.
+
+Fixpoint asked_get (i : N) (l : list (N * list N)) : list N :=
+  match l with [] => [] | (j, xs) :: r => if (i =? j)%N then xs else asked_get i r end.
+
 (* ------------------------------------------------------------------ cases *)
 
 Inductive case :=
@@ -315,6 +357,10 @@ Inductive case :=
 | CasePD (rsz : zone) (rscut : cut) (q : zone) (pre : option (Z * N))
          (z : zone) (srv : N) (coh : bool) (ns : Z) (ds : option Z) (nprov : nat) (abort anchor : bool) (skew t0 t1 : Z)
          (outcome : N) (stored : option (Z * N)) (mcut : cut) (rcut : cut)
+  (* two overlapping resolutions through the full pipeline: interleaved steps with their clock
+     brackets; observed: stored delegations, both answer entries, servers asked per resolution *)
+| CaseRace (steps : list rstep) (delegs : list (zone * option Z)) (entries : list (N * option (Z * Z * option Z)))
+           (asked : list (N * list N))
   (* full pipeline against the scripted world *)
 | CaseLab (zone_srv : list (zone * N)) (trees : list ltree).
 
@@ -381,6 +427,12 @@ Definition check_case (c : case) : bool :=
       (* the depth budget stops the uncached branch before rs is moved, and a rejected or aborted
          call leaves rs as it was: rs is compared after the cached branch only *)
       (if (outcome =? 1)%N then cut_between (rs_cut_of lo) rcut (rs_cut_of hi) else true)
+  | CaseRace steps delegs entries asked =>
+      let '(lo, alo) := race_walk false st_init steps [] in
+      let '(hi, ahi) := race_walk true st_init steps [] in
+      forallb (fun ze => obetween (deleg_exp lo (fst ze)) (snd ze) (deleg_exp hi (fst ze))) delegs &&
+      forallb (fun ke => entry_between (entry_view lo (fst ke)) (snd ke) (entry_view hi (fst ke))) entries &&
+      forallb (fun ia => nlist_eqb (asked_get (fst ia) alo) (snd ia) && nlist_eqb (asked_get (fst ia) ahi) (snd ia)) asked
   | CaseLab _ trees => lab_check st_init st_init trees
   end.
 
@@ -469,5 +521,36 @@ Definition spec_case (c : case) : bool :=
           end &&
           match mcut with Some (m, _) => m <=? lim | None => false end &&
           true
+  | CaseRace steps delegs entries asked =>
+      (* whichever way the two resolutions interleave: a stored delegation ends within SOME referral the
+         parent side issued for it (observed no later than that step's t1, TTL capped at 12 h), and an
+         admitted answer ends within such a bound for EVERY zone its resolution was referred through *)
+      let bound z := fold_left (fun acc p => match rp_act p with
+                                             | LRefer z' _ _ ns ds =>
+                                                 if zone_eqb z z' then
+                                                   let b := rp_t1 p + Z.min (match ds with Some d => Z.min ns d | None => ns end * 1000000000) twelve_hours in
+                                                   match acc with Some a => Some (Z.max a b) | None => Some b end
+                                                 else acc
+                                             | _ => acc
+                                             end) steps None in
+      forallb (fun ze => match snd ze, bound (fst ze) with
+                         | Some e, Some b => e <=? b
+                         | Some _, None => false
+                         | None, _ => true
+                         end) delegs &&
+      forallb (fun p => match rp_act p with
+                        | LStore key _ =>
+                            match assoc_entry key entries with
+                            | Some x =>
+                                forallb (fun p' => if (rp_id p' =? rp_id p)%N then
+                                                     match rp_act p' with
+                                                     | LRefer z _ _ _ _ => match bound z with Some b => entry_end x <=? b | None => false end
+                                                     | _ => true
+                                                     end
+                                                   else true) steps
+                            | None => true
+                            end
+                        | _ => true
+                        end) steps
   | CaseLab zone_srv trees => lab_spec [] zone_srv trees
   end.
